@@ -19,5 +19,8 @@ func controlsC07() []Control {
 		{Name: "first open result installed when it failed", Expect: "R7", Mutate: replaceIn("(*tableEngine).tableGameOpen", "retry := 10\n\tif err != nil {", "retry := 10\n\tif err == nil {", 0)},
 		{Name: "retry loop treats a failed re-open as success", Expect: "R7", Mutate: replaceIn("(*tableEngine).tableGameOpen", "newTable, err = te.openGame(te.table)\n\t\t\t\tif err != nil {", "newTable, err = te.openGame(te.table)\n\t\t\t\tif err == nil {", 0)},
 		{Name: "successful re-open forgotten", Expect: "R7", Mutate: replaceIn("(*tableEngine).tableGameOpen", "reopened = true\n", "", 0)},
+		{Name: "close operation does not record the closed status", Expect: "R5", Mutate: replaceIn("(*tableEngine).CloseTable", "\tte.table.State.Status = TableStateStatus_TableClosed\n", "", 0)},
+		{Name: "release operation records nothing", Expect: "R5", Mutate: replaceIn("(*tableEngine).ReleaseTable", "te.isReleased = true", "te.isReleased = false", 0)},
+		{Name: "closing no longer releases", Expect: "R5", Mutate: replaceIn("(*tableEngine).CloseTable", "\tte.ReleaseTable()\n", "", 0)},
 	}
 }
